@@ -156,7 +156,7 @@ def build(rnd, tier, flags):
             if any(flat[x][0].kind in ("format",) for x in range(a, bnd)):
                 continue
             used.update(range(a, bnd))
-            repl.append((a, bnd, "missing_%d.inc" % k))
+            repl.append((a, bnd, r.pick(["missing_%d.inc", "Missing_%d.INC", "Inc/LoopBody_%d.h", "missing_%d.inc"]) % k))
         repl.sort()
         main_lines, minus_lines, incs = [], [], []
         i = 0
